@@ -12,6 +12,7 @@ import (
 
 	"google.golang.org/protobuf/proto"
 
+	"github.com/smart-core-os/sc-golang/internal/testproto"
 	"github.com/smart-core-os/sc-golang/pkg/resource"
 
 	"github.com/smart-core-os/sc-golang/verifharness/vcoq"
@@ -21,39 +22,66 @@ const (
 	eqExact = iota // WithNoDuplicates
 	eqField        // only field f is compared
 	eqTol          // field f within k, the other fields equal
+	eqNone         // no equivalence configured
 )
 
+// rcfg: the equivalence and the writable fields (resource.WithWritablePaths; Conc/Judge.v cf_writable) the
+// shared Value and Collection are constructed with
 type rcfg struct {
-	kind int
-	f    fld
-	k    int64
+	kind        int
+	f           fld
+	k           int64
+	writable    []fld
+	hasWritable bool
 }
 
 func (c *rcfg) coq() string {
+	rw := coqOptFlds(c.writable, c.hasWritable)
 	switch c.kind {
+	case eqNone:
+		return vcoq.App("mkCfg", "None", rw)
 	case eqExact:
-		return "(mkCfg (Some CqExact))"
+		return vcoq.App("mkCfg", "(Some CqExact)", rw)
 	case eqField:
-		return vcoq.App("mkCfg", vcoq.Some(vcoq.App("CqField", fldCoq[c.f])))
+		return vcoq.App("mkCfg", vcoq.Some(vcoq.App("CqField", fldCoq[c.f])), rw)
 	}
-	return vcoq.App("mkCfg", vcoq.Some(vcoq.App("CqTol", fldCoq[c.f], vcoq.Z(c.k))))
+	return vcoq.App("mkCfg", vcoq.Some(vcoq.App("CqTol", fldCoq[c.f], vcoq.Z(c.k))), rw)
 }
 
 func (c *rcfg) tag() string {
-	return []string{"exact", "one-field-only", "tolerance"}[c.kind]
+	return []string{"exact", "one-field-only", "tolerance", "none"}[c.kind]
 }
 
 func (c *rcfg) js() any {
+	var e string
 	switch c.kind {
+	case eqNone:
+		e = "no equivalence"
 	case eqExact:
-		return "WithNoDuplicates (proto.Equal)"
+		e = "WithNoDuplicates (proto.Equal)"
 	case eqField:
-		return fmt.Sprintf("WithEquivalence: only %s is compared", fldPath[c.f])
+		e = fmt.Sprintf("WithEquivalence: only %s is compared", fldPath[c.f])
+	default:
+		e = fmt.Sprintf("WithEquivalence: %s may differ by at most %d, every other field equal", fldPath[c.f], c.k)
 	}
-	return fmt.Sprintf("WithEquivalence: %s may differ by at most %d, every other field equal", fldPath[c.f], c.k)
+	if c.hasWritable {
+		return map[string]any{"equivalence": e, "writable_paths": jsFlds(c.writable)}
+	}
+	return e
 }
 
-func (c *rcfg) option() resource.Option {
+func (c *rcfg) options() []resource.Option {
+	var out []resource.Option
+	if c.hasWritable {
+		out = append(out, resource.WithWritablePaths(&testproto.TestAllTypes{}, pathsOf(c.writable)...))
+	}
+	if c.kind == eqNone {
+		return out
+	}
+	return append(out, c.equivOption())
+}
+
+func (c *rcfg) equivOption() resource.Option {
 	if c.kind == eqExact {
 		return resource.WithNoDuplicates()
 	}
@@ -124,6 +152,50 @@ var nearCollTmpls = []tmpl{
 	}},
 }
 
+// writers on resources constructed with WithWritablePaths(default_int32): what a call may write is the union of
+// the resource's writable fields and its own WithMoreWritablePaths, lifted by WithAllFieldsWritable (opt.go
+// fieldUpdater); an update mask outside it is InvalidArgument before anything is read
+var writableValueTmpls = []tmpl{
+	{"w-cas-extra-field", func(t int, b int64) *fcall { // the second field is not writable: silently not merged
+		return &fcall{kind: kSet, msg: fmsg{6 + int64(t), 9 + int64(t), 0}, o: &fwo{expected: &fmsg{5, 0, 0}}}
+	}},
+	{"w-delta-extra-field", func(t int, b int64) *fcall {
+		return &fcall{kind: kSet, msg: fmsg{1 + int64(t), 0, 4}, o: &fwo{before: &icpt{kind: 0, f: fa}}}
+	}},
+	{"w-mask-unwritable", func(t int, b int64) *fcall { // InvalidArgument
+		return &fcall{kind: kSet, msg: fmsg{0, 7 + int64(t), 0}, o: &fwo{hasUpdate: true, update: []fld{fb}}}
+	}},
+	{"w-mask-more-writable", func(t int, b int64) *fcall {
+		return &fcall{kind: kSet, msg: fmsg{0, 17 + int64(t), 0}, o: &fwo{hasUpdate: true, update: []fld{fb}, hasMoreWritable: true, moreWritable: []fld{fb}}}
+	}},
+	{"w-all-writable", func(t int, b int64) *fcall {
+		return &fcall{kind: kSet, msg: fmsg{20 + int64(t), 21 + int64(t), 22}, o: &fwo{allWritable: true, expected: &fmsg{5, 0, 0}}}
+	}},
+}
+
+var writableCollTmpls = []tmpl{
+	{"w-upsert-extra-field", func(t int, b int64) *fcall {
+		return &fcall{kind: kUpdate, id: "a", msg: fmsg{2 + int64(t), 8 + int64(t), 0}, o: &fwo{create: true, before: &icpt{kind: 0, f: fa}}}
+	}},
+	{"w-update-cas-more-writable", func(t int, b int64) *fcall {
+		return &fcall{kind: kUpdate, id: "a", msg: fmsg{3 + int64(t), 13 + int64(t), 0}, o: &fwo{expected: &fmsg{1, 0, 0}, hasMoreWritable: true, moreWritable: []fld{fb}}}
+	}},
+	{"w-update-mask-unwritable", func(t int, b int64) *fcall { // InvalidArgument
+		return &fcall{kind: kUpdate, id: "a", msg: fmsg{0, 0, 5 + int64(t)}, o: &fwo{hasUpdate: true, update: []fld{fc}}}
+	}},
+	{"w-add-all-writable", func(t int, b int64) *fcall {
+		return &fcall{kind: kAdd, id: "a", msg: fmsg{30 + int64(t), 31, 32}, o: &fwo{allWritable: true}}
+	}},
+	{"w-delete-expected", func(t int, b int64) *fcall {
+		return &fcall{kind: kDelete, id: "a", o: &fwo{expected: &fmsg{1, 0, 0}}}
+	}},
+}
+
+var writableVariants = []*rcfg{
+	{kind: eqNone, hasWritable: true, writable: []fld{fa}},
+	{kind: eqTol, f: fa, k: 3, hasWritable: true, writable: []fld{fa}},
+}
+
 var cfgVariants = []*rcfg{{kind: eqTol, f: fa, k: 3}, {kind: eqField, f: fc}, {kind: eqExact}}
 
 // genCfgCases: every interleaving of two writers on resources constructed with an equivalence, plus
@@ -183,11 +255,56 @@ func genCfgCases(o *vcoq.Out, r *vcoq.Rand, tier string, base int64) {
 			exploreAll(sc, 60, emit(sc, "configured"))
 		}
 	}
+	// resources constructed with writable fields (with and without an equivalence): every interleaving of two writers
+	for wi, cfg := range writableVariants {
+		ctag := "writable-fields:" + fmt.Sprint(jsFlds(cfg.writable))
+		vt, ct := writableValueTmpls, writableCollTmpls
+		if wi > 0 {
+			vt, ct = vt[:3], ct[:2]
+		}
+		for i, a := range vt {
+			for j := i; j < len(vt); j++ {
+				sc := &scenario{cfg: cfg, vinit: &vinit0, prog: []*fcall{mkCall(a, 0, base), mkCall(vt[j], 1, base)},
+					tags: []string{"pair:" + a.name + "+" + vt[j].name, "resource:value", ctag, "equivalence:" + cfg.tag()}}
+				exploreAll(sc, 0, emit(sc, "exhaustive-2", "configured"))
+			}
+		}
+		for _, present := range []bool{true, false} {
+			if wi > 0 && !present {
+				continue
+			}
+			for i, a := range ct {
+				for j := i; j < len(ct); j++ {
+					sc := &scenario{cfg: cfg, cinit: collInit(present), prog: []*fcall{mkCall(a, 0, base), mkCall(ct[j], 1, base)},
+						tags: []string{"pair:" + a.name + "+" + ct[j].name, "resource:collection", ctag, "equivalence:" + cfg.tag()}}
+					exploreAll(sc, 0, emit(sc, "exhaustive-2", "configured"))
+				}
+			}
+		}
+	}
 	n := 40
 	if tier == "thorough" {
 		n = 1500
 	}
 	for k := 0; k < n; k++ {
+		if r.Chance(25) {
+			// a sampled mix on a resource with writable fields
+			cfg := &rcfg{kind: eqNone, hasWritable: true, writable: [][]fld{{fa}, {fb}, {fa, fc}}[r.Intn(3)]}
+			nt := 3 + r.Intn(2)
+			sc := &scenario{cfg: cfg, vinit: &vinit0, cinit: collInit(true)}
+			onValue := r.Chance(50)
+			for t := 0; t < nt; t++ {
+				if onValue {
+					sc.prog = append(sc.prog, mkCall(writableValueTmpls[r.Intn(len(writableValueTmpls))], t, base))
+				} else {
+					sc.prog = append(sc.prog, mkCall(writableCollTmpls[r.Intn(len(writableCollTmpls))], t, base))
+				}
+			}
+			sc.tags = []string{fmt.Sprintf("sampled-%d", nt), "configured", "writable-fields:" + fmt.Sprint(jsFlds(cfg.writable))}
+			rr := runSchedule(sc, nil, func(alive []int) int { return alive[r.Intn(len(alive))] })
+			emitCase(o, sc, rr, nil)
+			continue
+		}
 		cfg := cfgVariants[r.Intn(2)]
 		if r.Chance(30) {
 			cfg = &rcfg{kind: eqTol, f: fa, k: int64(1 + r.Intn(4))}
